@@ -67,8 +67,10 @@ func (c09) Gen(seed uint64, run int, tier string) *core.Case {
 		op := c09Op{Key: r.IntN(nk), GW: r.IntN(cfg.Instances), Idx: r.IntN(8), Size: 1 + pickSize(r, 5000)}
 		x := r.IntN(100)
 		switch {
-		case x < 28:
+		case x < 24:
 			op.Kind = "put"
+		case x < 28:
+			op.Kind = "putrefused" // an upload the gateway refuses (lock header on a bucket without object lock)
 		case x < 34:
 			op.Kind, op.Src = "copy", r.IntN(nk)
 		case x < 39:
@@ -281,7 +283,7 @@ func (c09) Exec(c *core.Case) (out *core.Outcome) {
 			top = st[len(st)-1]
 		}
 		o.AddClass("%s|%s|suspended=%v", op.Kind, c09Shape(st), suspended)
-		if (suspended || hasNull(k)) && (op.Kind == "put" || op.Kind == "copy" || op.Kind == "complete" || op.Kind == "delete") {
+		if (suspended || hasNull(k)) && (op.Kind == "put" || op.Kind == "putrefused" || op.Kind == "copy" || op.Kind == "complete" || op.Kind == "delete") {
 			pause()
 		}
 		switch op.Kind {
@@ -301,6 +303,21 @@ func (c09) Exec(c *core.Case) (out *core.Outcome) {
 			res := cl.Do(s3c.PutObject(bkt, key, ob.Data, h...))
 			if res.Resp.OK() {
 				pushWrite(i, k, "PutObject", res.Resp.Get("X-Amz-Version-Id"), ob)
+			}
+		case "putrefused":
+			ob, h := mkObj(op.Size)
+			h = append(h, KV{K: "X-Amz-Object-Lock-Legal-Hold", V: "ON"})
+			res := cl.Do(s3c.PutObject(bkt, key, ob.Data, h...))
+			if res.Resp.OK() {
+				pushWrite(i, k, "PutObject", res.Resp.Get("X-Amz-Version-Id"), ob)
+				break
+			}
+			o.Probe("refused_upload")
+			// whether or not the refused request left its data as the newest version, every earlier version
+			// must still be there: learn the newest version from HEAD and go on with the usual invariants
+			if hd := cl.Do(s3c.HeadObject(bkt, key)); hd.Resp.OK() && etagEq(hd.Resp.Get("ETag"), ob.ETag) {
+				o.Probe("refused_upload_left_its_data")
+				pushWrite(i, k, "PutObject(refused)", hd.Resp.Get("X-Amz-Version-Id"), ob)
 			}
 		case "copy":
 			src := stacks[op.Src]
